@@ -103,6 +103,9 @@ static void observer (void *a) {
 				nsync_mu_lock (&mu); x[1] = 1; nsync_mu_unlock (&mu);
 				return;
 			}
+			if ((w & (MU_WLOCK | MU_RLOCK_FIELD)) == 0)
+				vrt_fail ("C02", "LOST HAND-OFF: everybody is asleep or finished, the mutex is free (word %u = 0x%x) and Y / X have not finished: "
+					  "a thread is asleep in nsync_mu_lock or nsync_mu_wait with nobody left who is responsible for waking it", w, w);
 			vrt_fail ("C06x", "unexpected quiescent state: word %u", w);
 		}
 	}
